@@ -129,14 +129,36 @@ Fixpoint addr_structs (addrs : list str) : option (list str) :=
       end
   end.
 
-Definition parse_address_list (addresses : str) : option str :=
+(** strings.LastIndex(a, "@") split: (a[:at], a[at+1:]) or (a, "") *)
+Definition split_at_last (s : str) (c : ascii) : str * str :=
+  match index_byte (rev s) c with
+  | Some i => let at_ := length s - S i in (firstn at_ s, skipn (S at_) s)
+  | None => (s, [])
+  end.
+
+(** the address structures built from net/mail's reading of the header (bd5007f):
+    [(display name after mime.QEncoding.Encode, address)] *)
+Definition mail_structs (l : list (str * str)) : list str :=
+  map (fun na => let '(mailbox, host) := split_at_last (snd na) "@" in
+                 [LP] ++ quote_or_nil (fst na) ++ S_ " NIL " ++ quote_or_nil mailbox ++ [SP]
+                      ++ quote_or_nil host ++ [RP]) l.
+
+(** [mail_parse] is Go's net/mail.ParseAddressList with every display name passed
+    through mime.QEncoding.Encode("utf-8", .): [None] = error or empty list. It is
+    a PARAMETER of the model (library code); the theorems hold for every function. *)
+Definition parse_address_list (mail_parse : str -> option (list (str * str))) (addresses : str) : option str :=
   match addresses with
   | [] => Some NIL
-  | _ => match addr_structs (split_byte addresses ",") with
-         | None => None
-         | Some [] => Some NIL
-         | Some l => Some ([LP] ++ join l [SP] ++ [RP])
-         end
+  | _ =>
+    match mail_parse addresses with
+    | Some (x :: l) => Some ([LP] ++ join (mail_structs (x :: l)) [SP] ++ [RP])
+    | _ =>
+      match addr_structs (split_byte addresses ",") with
+      | None => None
+      | Some [] => Some NIL
+      | Some l => Some ([LP] ++ join l [SP] ++ [RP])
+      end
+    end
   end.
 
 (** ---- BuildEnvelope ---- *)
@@ -149,8 +171,10 @@ Definition opt_list {A} (l : list (option A)) : option (list A) :=
              (Some []) l.
 
 (** the ten fields of the ENVELOPE, from the ten extracted header values *)
-Definition envelope_fields (date subject from sender replyto to cc bcc inreplyto msgid : str)
+Definition envelope_fields (mp : str -> option (list (str * str)))
+           (date subject from sender replyto to cc bcc inreplyto msgid : str)
   : option (list str) :=
+  let parse_address_list := parse_address_list mp in
   let sender' := match sender with [] => from | _ => sender end in
   let replyto' := match replyto with [] => from | _ => replyto end in
   opt_list [Some (quote_or_nil date); Some (quote_or_nil subject);
@@ -159,17 +183,24 @@ Definition envelope_fields (date subject from sender replyto to cc bcc inreplyto
             parse_address_list cc; parse_address_list bcc;
             Some (quote_or_nil inreplyto); Some (quote_or_nil msgid)].
 
-Definition envelope_value (raw : str) : option str :=
+Definition envelope_value (mp : str -> option (list (str * str))) (raw : str) : option str :=
   let h n := extract_header raw n in
-  match envelope_fields (h (S_ "Date")) (h (S_ "Subject")) (h (S_ "From")) (h (S_ "Sender"))
+  match envelope_fields mp (h (S_ "Date")) (h (S_ "Subject")) (h (S_ "From")) (h (S_ "Sender"))
                         (h (S_ "Reply-To")) (h (S_ "To")) (h (S_ "Cc")) (h (S_ "Bcc"))
                         (h (S_ "In-Reply-To")) (h (S_ "Message-ID")) with
   | Some fs => Some ([LP] ++ join fs [SP] ++ [RP])
   | None => None
   end.
 
-Definition build_envelope (raw : str) : option str :=
-  option_map (fun v => S_ "ENVELOPE " ++ v) (envelope_value raw).
+Definition build_envelope (mp : str -> option (list (str * str))) (raw : str) : option str :=
+  option_map (fun v => S_ "ENVELOPE " ++ v) (envelope_value mp raw).
+
+(** net/mail's results as a finite table (what the correspondence run observed) *)
+Fixpoint mail_table (t : list (str * list (str * str))) (a : str) : option (list (str * str)) :=
+  match t with
+  | [] => None
+  | (k, v) :: r => if str_eqb a k then Some v else mail_table r a
+  end.
 
 (** ---- BODYSTRUCTURE formats (fields already parsed by Go's mime package) ---- *)
 
